@@ -13,3 +13,4 @@ import VK.Props.C08Rep
 import VK.Props.C08CandOrderTopTwo
 import VK.Props.C08CandOrderAlaska
 import VK.Props.C08RepAlaska
+import VK.Props.C08RepDictator
